@@ -923,3 +923,153 @@ def replay_topic(prop, r):
 
 
 reg(dict(name="topic", kind="custom", run=run_topic, replay=replay_topic), ["C18"])
+
+
+# =============================================================================================
+# group "handshake": C19  (Prod4.tla generator + HsMon.tla)
+
+PROD4_CFG = "SPECIFICATION ExportSpec\nCONSTANTS\n  D1 = {d1}\n  D2 = {d2}\n  D3 = {d3}\n  D4 = {d4}\nCHECK_DEADLOCK FALSE\n"
+
+# first packets: (descriptor, well-formed CONNECT for which versions)
+def c19_firsts():
+    f = [
+        ({"t": "connect", "level": 4, "ver": 3, "ka": 10}, (3,)),
+        ({"t": "connect", "level": 5, "ver": 5, "ka": 10, "rm": 3}, (5,)),
+        ({"t": "connect", "level": 5, "ver": 5, "ka": 0}, (5,)),
+        ({"t": "connect", "level": 3, "ver": 3, "ka": 10}, ()),             # unknown level
+        ({"t": "connect", "level": 6, "ver": 5, "ka": 10}, ()),             # unknown level
+        ({"t": "connect", "level": 4, "ver": 3, "ka": 10, "proto": "MQTX"}, ()),   # unknown protocol name
+        ({"t": "connect", "level": 5, "ver": 5, "ka": 10, "proto": "MQIsdp"}, ()),
+        ({"t": "connect", "level": 4, "ver": 3, "ka": 10, "cflags": 3}, ()),       # reserved connect flag set
+        ({"t": "connect", "level": 5, "ver": 5, "ka": 10, "cflags": 3}, ()),
+        ({"t": "publish", "q": 1, "id": 1, "topic": "t", "plen": 1}, ()),
+        ({"t": "connack", "rc": 0}, ()),
+        ({"t": "puback", "id": 1}, ()),
+        ({"t": "subscribe", "id": 1}, ()),
+        ({"t": "pingreq"}, ()),
+        ({"t": "disconnect"}, ()),
+        ({"t": "pubrel", "id": 1}, ()),
+    ]
+    return f
+
+C19_CUTS = [[], [1], [2], [3, 5], [7], [9], [10, 11], [12], [1, 2, 3, 4, 5, 6, 7, 8, 9, 10, 11, 12, 13, 14, 15]]
+C19_OUTCOMES = ["ok", "refuse", "err", "slow"]
+# limit combos: (cfg, probe)
+C19_LIMITS = [
+    ({}, "none"),
+    ({"max_send": 4}, "none"),
+    ({"max_send": 4, "ack_max_send": 2}, "none"),
+    ({"max_send": 2, "ack_max_send": 8}, "none"),
+    ({"max_qos": 1}, "qos"),
+    ({"max_qos": 2, "ack_max_qos": 0}, "qos"),
+    ({"max_qos": 0, "ack_max_qos": 1}, "qos"),
+    ({"max_size": 64}, "oversize"),
+    ({"max_size": 0, "ack_max_packet_size": 48}, "oversize"),
+    ({"max_topic_alias": 2}, "alias_over"),
+    ({"max_topic_alias": 2}, "alias_at"),
+    ({"max_topic_alias": 8, "ack_topic_alias_max": 1}, "alias_over"),
+    ({"ack_keep_alive": 5}, "none"),
+    ({"ack_keep_alive": 50}, "none"),
+    ({"ack_receive_max": 3, "max_receive": 7}, "none"),
+]
+
+
+def c19_decode_for(endpoint):
+    firsts = c19_firsts()
+
+    def dec(tokens, variant):
+        a, b, c, d = tokens
+        first, okvers = firsts[a - 1]
+        cuts = C19_CUTS[b - 1]
+        outcome = C19_OUTCOMES[c - 1]
+        lim, probe = C19_LIMITS[d - 1]
+        if endpoint == "both":
+            role, ver = "both", first.get("level", 4) if first.get("level") in (4, 5) else 4
+            ver = 5 if first.get("level") == 5 else 3
+            served = (3, 5)
+        else:
+            role, ver = "server", endpoint
+            served = (endpoint,)
+        wellformed = any(v in served for v in okvers)
+        # reduce the product: limits only matter after a well-formed CONNECT that is accepted
+        if (not wellformed or outcome != "ok") and d != 1:
+            return None, None
+        if probe in ("alias_over", "alias_at") and (ver != 5):
+            return None, None
+        if ver == 3 and any(k in lim for k in ("ack_max_qos", "ack_max_packet_size", "ack_keep_alive", "ack_receive_max", "ack_topic_alias_max")):
+            return None, None
+        cfg = dict(role=role, ver=ver, gate_pub=0, gate_proto=0, max_receive=16)
+        cfg.update(lim)
+        if outcome == "slow":
+            cfg["gate_hs"] = 1
+        cmds = [{"c": "mark", "k": "wellformed", "n": int(wellformed)}]
+        if endpoint == "both":
+            cmds.append({"c": "mark", "k": "level", "n": ver})
+        if outcome in ("refuse", "err"):
+            cmds.append({"c": "arm", "o": outcome})
+        if outcome == "slow":
+            cmds.append({"c": "mark", "k": "slowhs"})
+        fp = dict(first)
+        cmd = {"c": "in", "p": fp}
+        if cuts:
+            cmd["cuts"] = cuts
+        cmds.append(cmd)
+        # a publish right behind the first packet: must not reach a handler unless accepted
+        cmds.append({"c": "in", "p": {"t": "publish", "ver": ver, "q": 0, "topic": "t", "plen": 1}})
+        if wellformed and outcome == "ok" and probe != "none":
+            cmds.append({"c": "mark", "k": probe})
+            eff_alias = lim.get("ack_topic_alias_max", lim.get("max_topic_alias", 32))
+            if probe == "qos":
+                eff = lim.get("ack_max_qos", lim.get("max_qos", 1)) if ver == 5 else lim.get("max_qos", 1)
+                cmds.append({"c": "in", "p": {"t": "publish", "ver": ver, "q": eff + 1, "id": 77, "topic": "t", "plen": 1}})
+            elif probe == "oversize":
+                cmds.append({"c": "in", "p": {"t": "publish", "ver": ver, "q": 1, "id": 77, "topic": "t", "plen": 100}})
+            elif probe == "alias_over":
+                cmds.append({"c": "in", "p": {"t": "publish", "ver": 5, "q": 1, "id": 77, "topic": "t", "alias": eff_alias + 1, "plen": 1}})
+            elif probe == "alias_at":
+                cmds.append({"c": "in", "p": {"t": "publish", "ver": 5, "q": 1, "id": 77, "topic": "t", "alias": eff_alias, "plen": 1}})
+        cmds.append({"c": "drain"})
+        return cfg, cmds
+    return dec
+
+
+def c19_client_decode(ver):
+    def dec(tokens, variant):
+        a, b, c, d = tokens       # a: configured max_send 1..4, b: CONNACK Receive Maximum (0 = absent, 1..4)
+        if c != 1 or d != 1:
+            return None, None
+        cfg = dict(role="client", ver=ver, max_send=a)
+        p = {"t": "connack", "rc": 0}
+        if ver == 5 and b > 1:
+            p["rm"] = b - 1
+        elif ver == 3 and b > 1:
+            return None, None
+        return cfg, [{"c": "in", "p": p}, {"c": "idle"}, {"c": "drain"}]
+    return dec
+
+
+def c19_configs(tier):
+    cs = []
+    nf = len(c19_firsts())
+    for ver in (3, 5):
+        cs.append((f"client{ver}", PROD4_CFG.format(d1=4, d2=5, d3=1, d4=1), "Prod4", c19_client_decode(ver), [None]))
+    for ep in (3, 5, "both"):
+        cs.append((f"ep{ep}", PROD4_CFG.format(d1=nf, d2=len(C19_CUTS), d3=len(C19_OUTCOMES), d4=len(C19_LIMITS)),
+                   "Prod4", c19_decode_for(ep), [None]))
+    return cs
+
+
+reg(dict(
+    name="handshake", judge="HsJudge", configs=c19_configs,
+    signature=lambda v: f"{v['why']}|{v['cfg']['role']}{v['cfg']['ver']}|" + "+".join(sorted(k for k in v['cfg'] if k.startswith(('ack_', 'max_')))),
+    level={}, quota=2500, quota_thorough=10**6,
+    rule="TLC enumerates the product first packet (16: CONNECT with level 3/4/5/6, wrong protocol names, reserved flags, and "
+         "every other packet type) x fragmentation of the first 16 bytes (9 cut sets incl. byte-at-a-time) x handshake "
+         "outcome (accept / refuse / error / slow) x 15 limit combinations (configured vs CONNECT-requested vs "
+         "handshake-overridden send window, QoS, packet size, topic alias, keep-alive, receive maximum) for the v3 server, "
+         "the v5 server and the combined server; each accepted connection is probed (QoS above maximum, oversize frame, "
+         "alias at / above maximum, credit()); HsMon judges with limits it computes itself",
+    assumptions=[
+        "the product is reduced: limit combinations are only expanded for well-formed, accepted CONNECTs",
+        "keep-alive values are checked as announced in CONNACK; their effect in time is C20",
+    ]), ["C19"])
